@@ -331,6 +331,16 @@ class ModelFS:
         return StatResult(node)
 
     @_ut
+    def os_lstat(self, path):
+        self._tick('stat', path)
+        node = self.lookup(path, follow=False)
+        if node is None:
+            raise FileNotFoundError(errno.ENOENT, 'No such file or directory', path)
+        if node.kind == 'symlink':
+            raise NotImplementedError('model lstat of a symlink')
+        return StatResult(node)
+
+    @_ut
     def os_close(self, fd):
         self._fds.pop(fd, None)
 
@@ -453,11 +463,42 @@ class _PathProxy:
     @staticmethod
     @_ut
     def isdir(path):
-        try:
-            n = cur().lookup(path)
-        except OSError:
-            return False
+        n = _PathProxy._probe(path)
         return n is not None and n.kind == 'dir'
+
+    @staticmethod
+    def _probe(path, follow=True):
+        """os.path.exists & co: a stat() whose every OSError means False"""
+        fs = cur()
+        try:
+            if '\0' in path:
+                raise ValueError('embedded null byte')
+            fs._tick('stat', path)
+            return fs.lookup(path, follow)
+        except (OSError, ValueError):
+            return None
+
+    @staticmethod
+    @_ut
+    def exists(path):
+        return _PathProxy._probe(path) is not None
+
+    @staticmethod
+    @_ut
+    def lexists(path):
+        return _PathProxy._probe(path, False) is not None
+
+    @staticmethod
+    @_ut
+    def isfile(path):
+        n = _PathProxy._probe(path)
+        return n is not None and n.kind == 'file'
+
+    @staticmethod
+    @_ut
+    def islink(path):
+        n = _PathProxy._probe(path, False)
+        return n is not None and n.kind == 'symlink'
 
 
 class _OsProxy:
@@ -488,6 +529,17 @@ class _OsProxy:
     @staticmethod
     def walk(top, topdown=True, onerror=None, followlinks=False):
         return cur().os_walk(top, topdown, onerror, followlinks)
+
+    @staticmethod
+    def lstat(path):
+        return cur().os_lstat(path)
+
+    @staticmethod
+    def listdir(path):
+        err, node, dirs, nondirs = cur()._scandir(path)
+        if err is not None:
+            raise err
+        return dirs + nondirs
 
 
 class _FileObj:
